@@ -247,3 +247,41 @@ func VH_C05_EncodeV2(n int) {
 	}
 	vhReach("c05-encode-v2")
 }
+
+// H1b (producer side): header keys and values at the lengths where a (zig-zag) varint length prefix changes its
+// size (63/64, 8191/8192) - the record's own length field, computed up front, must agree with what is written.
+func VH_C05_EncodeV2Headers(hl int) {
+	vhConcreteClock(true)
+	var hv []byte
+	if hl <= 128 {
+		hv = vhBytes("header_value", hl)
+	} else {
+		hv = make([]byte, hl)
+		hv[0], hv[hl-1] = vhByte("header_value_first"), vhByte("header_value_last")
+	}
+	hk := "k"
+	for len(hk) < hl && len(hk) < 70 {
+		hk += "k"
+	}
+	recs := []Record{{Time: time.Unix(1600000000, 0), Key: NewBytes(vhBytes("key", 1)), Value: NewBytes(vhBytes("value", 2)),
+		Headers: []Header{{Key: hk, Value: hv}, {Key: "n", Value: nil}}}}
+	rs := RecordSet{Version: 2, Records: NewRecordReader(recs...)}
+	var buf bytes.Buffer
+	_, err := rs.WriteTo(&buf)
+	vhAssert(err == nil, "write-ok")
+	out := buf.Bytes()
+	vhAssert(len(out) >= 4+61, "has-a-batch")
+	size := int(int32(uint32(out[0])<<24 | uint32(out[1])<<16 | uint32(out[2])<<8 | uint32(out[3])))
+	vhAssert(size == len(out)-4, "record-set-size-prefix")
+	d := vhDecodeBatchV2(out[4:])
+	vhAssert(d.ok, "independent-decoder-accepts-the-batch-record-length-fields-included")
+	vhAssert(int(d.batchLength) == len(out)-4-12, "batch-length-field")
+	vhAssert(d.crc == d.crcComputed, "crc-covers-attributes-to-end")
+	if d.ok && len(d.recs) == 1 {
+		vhAssert(len(d.recs[0].hkeys) == 2 && d.recs[0].hkeys[0] == hk && d.recs[0].hkeys[1] == "n", "header-keys")
+		if len(d.recs[0].hvals) == 2 {
+			vhAssert(vhBytesEq(d.recs[0].hvals[0], hv), "header-value-bytes")
+		}
+	}
+	vhReach("c05-encode-v2-headers")
+}
